@@ -82,9 +82,10 @@ def check(ctx):
         got = {}
         for b, i, t in return_terms(sz, gs.tb):
             for fs in (gs.at(b, i) if i is not None else gs.at(b)):
-                v = variant_of(fs)
-                if v and t[0] == "const":
-                    got[v] = t[1]
+                vs_ = fs.get(("discr", ("arg", "self")))
+                if vs_ is not None and vs_[0] == "in" and t[0] == "const":
+                    for v in vs_[1]:  # arms may be merged with `|`
+                        got[v] = t[1] if got.get(v, t[1]) == t[1] else "ambiguous"
         ctx.ob("a.encoding", "size-table", got == SIZES, "UserPrmDataType::size() table %s differs from %s" % (got, SIZES), sz.loc(0))
     # ---------------- b: bit fields ------------------------------------------------------------------
     ws = buffer_writes(w, tb, lambda t: path_str(t) == "s")
